@@ -97,6 +97,24 @@ fn make_plan(prop: &str, tier: Tier, base: u64, index: u64, chunk: u64) -> Optio
     Some((which, plan))
 }
 
+pub static LAST_PANIC: std::sync::Mutex<Option<String>> = std::sync::Mutex::new(None);
+
+/// Run a scenario; a panic that escapes it (single-threaded scenarios run the code under test on
+/// this very thread) is a violation, not a harness crash.
+fn run_scenario(scen: &dyn Scenario, plan: &Value) -> Report {
+    match std::panic::catch_unwind(std::panic::AssertUnwindSafe(|| scen.run(plan))) {
+        Ok(r) => r,
+        Err(e) => {
+            let msg = detsim::sched::panic_message(&e);
+            let loc = LAST_PANIC.lock().ok().and_then(|g| g.clone()).unwrap_or_default();
+            let mut r = Report::default();
+            r.case_sig = hash_value(plan);
+            r.violation = Some(Violation::new("panic", format!("the code under test panicked: {msg} [{loc}]")));
+            r
+        }
+    }
+}
+
 fn find_scenario(prop: &str, name: &str) -> Option<Box<dyn Scenario>> {
     registry::scenarios(prop).into_iter().find(|s| s.name() == name)
 }
@@ -167,7 +185,7 @@ fn worker(args: &[String]) -> i32 {
         };
         debug_assert_eq!(subscriber_for(index, chunk), subscriber);
         let scen = &scens[which];
-        let rep = scen.run(&plan);
+        let rep = run_scenario(scen.as_ref(), &plan);
         done += 1;
         *scen_runs.entry(scen.name().to_string()).or_insert(0) += 1;
         let o = &rep.outcome;
@@ -227,7 +245,7 @@ fn worker(args: &[String]) -> i32 {
         }
         // determinism guard: re-execute some runs and compare the full choice hash
         if recheck > 0 && index % recheck == 0 {
-            let rep2 = scen.run(&plan);
+            let rep2 = run_scenario(scen.as_ref(), &plan);
             rechecked += 1;
             if rep2.outcome.hash != rep.outcome.hash || rep2.case_sig != rep.case_sig || rep2.outcome.steps != rep.outcome.steps {
                 harness_error = Some(format!(
@@ -271,7 +289,7 @@ fn run_plan_file(file: &Value, trace: bool) -> Option<(Report, Value)> {
         plan["trace"] = json!(true);
     }
     let scen = find_scenario(&prop, &name)?;
-    let rep = scen.run(&plan);
+    let rep = run_scenario(scen.as_ref(), &plan);
     Some((rep, plan))
 }
 
@@ -367,7 +385,7 @@ fn one(args: &[String]) -> i32 {
         return 0;
     }
     let _ = std::io::stdout().flush();
-    let rep = scens[which].run(&plan);
+    let rep = run_scenario(scens[which].as_ref(), &plan);
     println!("outcome: {}", outcome_json(&rep.outcome));
     println!("faults: {:?} probes: {:?}", rep.faults, rep.probes);
     if let Some(s) = &rep.sample {
@@ -944,7 +962,7 @@ fn selftest_determinism(args: &[String]) -> i32 {
         }
         for i in idxs {
             let (which, plan) = make_plan(prop, tier, base, i, chunk).unwrap();
-            let rep = scens[which].run(&plan);
+            let rep = run_scenario(scens[which].as_ref(), &plan);
             println!("{i} {:016x} {:016x} {} {}", rep.outcome.hash, rep.case_sig, rep.outcome.steps, rep.violation.is_some());
             if rep.outcome.wedged {
                 break;
